@@ -53,6 +53,17 @@ def lexer_table(engine):
             s = z3.String('tok')
             obls.append(Obligation(f'{tag}/never-empty', 'table', [z3.InRe(s, lang)], z3.Length(s) > 0, fs.lines[0], '',
                                    f'{reg.pattern!r} never matches the empty string (the scan position strictly increases)'))
+            if tid == 'number':
+                # the text of a number token is converted by int(text, base=0) (NumberNode): it must be a literal that conversion
+                # accepts — binary / octal / hexadecimal with prefix, zeros, or a decimal WITHOUT a leading zero — or a bare
+                # ValueError escapes from the parser
+                D = lambda a, b: z3.Range(a, b)
+                U = lambda *xs: z3.Union(*xs)
+                hexd = U(D('0', '9'), D('a', 'f'), D('A', 'F'))
+                ok = U(z3.Concat(z3.Re('0'), U(z3.Re('b'), z3.Re('B')), z3.Plus(D('0', '1'))), z3.Concat(z3.Re('0'), U(z3.Re('o'), z3.Re('O')), z3.Plus(D('0', '7'))),
+                       z3.Concat(z3.Re('0'), U(z3.Re('x'), z3.Re('X')), z3.Plus(hexd)), z3.Plus(z3.Re('0')), z3.Concat(D('1', '9'), z3.Star(D('0', '9'))))
+                obls.append(Obligation(f'{tag}/converts', 'table', [z3.InRe(s, lang)], z3.InRe(s, ok), fs.lines[0], '',
+                                       f'every text the number pattern {reg.pattern!r} matches is accepted by int(text, base=0)'))
             if tid not in upd:
                 obls.append(Obligation(f'{tag}/newline-free', 'table', [z3.InRe(s, lang)], z3.Not(z3.Contains(s, z3.StringVal('\n'))), fs.lines[0], '',
                                        f'lex does not update lineno for kind {tid!r}, so {reg.pattern!r} must not match a newline'))
